@@ -97,6 +97,33 @@ theorem Node.isFull_eq (cfg : Cfg) (n : Node) (h : n.len < 2 ^ 32) (hm : cfg.max
   unfold Node.isFull Gen.Tree.isFull
   rw [Node.numKeys_eq n h, w_beq (by omega) (by omega)]
 
+/-! ## page layout -/
+
+/-- Page layout: with `maxKeys = pageSize/16 - 1`, the key and value words of the entries
+`0 … maxKeys-1`, the page-id word `keyOffset(maxKeys)` and the meta word `valOffset(maxKeys)` are
+pairwise distinct words inside the page (`pageSize/8` words): entries never overlap the header. -/
+theorem layout_words (ps : Nat) (hps : 32 ≤ ps) (hlt : ps < 2 ^ 40) (i j : Nat)
+    (hi : i < (Cfg.ofPageSize ps).maxKeys) (hj : j < (Cfg.ofPageSize ps).maxKeys) :
+    (keyOffset (w i)).toNat = 2 * i ∧ (valOffset (w i)).toNat = 2 * i + 1 ∧
+    (keyOffset (w (Cfg.ofPageSize ps).maxKeys)).toNat = 2 * (Cfg.ofPageSize ps).maxKeys ∧
+    (valOffset (w (Cfg.ofPageSize ps).maxKeys)).toNat = 2 * (Cfg.ofPageSize ps).maxKeys + 1 ∧
+    (valOffset (w (Cfg.ofPageSize ps).maxKeys)).toNat < ps / 8 ∧
+    (i ≠ j → (keyOffset (w i)).toNat ≠ (keyOffset (w j)).toNat) := by
+  unfold Cfg.ofPageSize at *
+  simp only at hi hj ⊢
+  have e : ∀ n : Nat, n < 2 ^ 40 → (keyOffset (w n)).toNat = 2 * n ∧ (valOffset (w n)).toNat = 2 * n + 1 := by
+    intro n hn
+    unfold keyOffset valOffset
+    have h2 : (2#64 : BitVec 64) = w 2 := rfl
+    have h1 : (1#64 : BitVec 64) = w 1 := rfl
+    constructor
+    · rw [h2, BitVec.toNat_mul, w_toNat (by omega), w_toNat (by omega)]; omega
+    · rw [h2, h1, BitVec.toNat_add, BitVec.toNat_mul, w_toNat (by omega), w_toNat (by omega), w_toNat (by omega)]; omega
+  have hi' := e i (by omega)
+  have hj' := e j (by omega)
+  have hm := e (ps / 16 - 1) (by omega)
+  refine ⟨hi'.1, hi'.2, hm.1, hm.2, by rw [hm.2]; omega, fun hne => by rw [hi'.1, hj'.1]; omega⟩
+
 /-! ## entry lists -/
 
 section entries
